@@ -307,6 +307,91 @@ class _SpliceStar(ast.NodeTransformer):
         return node
 
 
+class _SubstMany(ast.NodeTransformer):
+    def __init__(self, m):
+        self.m = m
+
+    def visit_Name(self, node):
+        if node.id in self.m and isinstance(node.ctx, ast.Load):
+            new = ast.parse(ast.unparse(self.m[node.id]), mode="eval").body
+            for x in ast.walk(new):
+                ast.copy_location(x, node)
+            return new
+        return node
+
+
+def unroll_new_table_loops(fn, ref_names):
+    """`for a, b in ((x1, y1), (x2, y2)): body` with loop variables the reference tree does not have and a literal table of
+    side-effect-free entries is the body repeated with the entries written in place. -> number of loops unrolled"""
+    n_done = 0
+    for _ in range(4):
+        changed = False
+        for node in list(ast.walk(fn)):
+            for f in ("body", "orelse", "finalbody"):
+                blk = getattr(node, f, None)
+                if not isinstance(blk, list):
+                    continue
+                for k, st in enumerate(blk):
+                    if not isinstance(st, ast.For) or st.orelse:
+                        continue
+                    rows, table_def = None, None
+                    if isinstance(st.iter, (ast.Tuple, ast.List)):
+                        rows = st.iter.elts
+                    elif isinstance(st.iter, ast.Name) and st.iter.id not in ref_names:
+                        defs = [n for n in ast.walk(fn) if isinstance(n, ast.Assign) and len(n.targets) == 1
+                                and isinstance(n.targets[0], ast.Name) and n.targets[0].id == st.iter.id]
+                        uses = [n for n in ast.walk(fn) if isinstance(n, ast.Name) and n.id == st.iter.id]
+                        if len(defs) == 1 and len(uses) == 2 and isinstance(defs[0].value, (ast.Tuple, ast.List)):
+                            rows, table_def = defs[0].value.elts, defs[0]
+                    if rows is None or not rows or len(rows) > 16:
+                        continue
+                    tgts = st.target.elts if isinstance(st.target, (ast.Tuple, ast.List)) else [st.target]
+                    if not all(isinstance(t, ast.Name) and t.id not in ref_names for t in tgts):
+                        continue
+                    if any(isinstance(n, (ast.Break, ast.Continue)) for n in ast.walk(st)):
+                        continue
+                    tn = {t.id for t in tgts}
+                    if any(isinstance(n, ast.Name) and n.id in tn and isinstance(n.ctx, ast.Store) for b_ in st.body for n in ast.walk(b_)):
+                        continue
+                    new, ok = [], True
+                    for r in rows:
+                        if isinstance(st.target, (ast.Tuple, ast.List)):
+                            if not isinstance(r, (ast.Tuple, ast.List)) or len(r.elts) != len(tgts):
+                                ok = False
+                                break
+                            vals = r.elts
+                        else:
+                            vals = [r]
+                        if not all(_pure(v) for v in vals):
+                            ok = False
+                            break
+                        m = {t.id: v for t, v in zip(tgts, vals)}
+                        for b_ in st.body:
+                            c = ast.parse(ast.unparse(b_)).body[0]
+                            for x in ast.walk(c):
+                                ast.copy_location(x, b_)
+                            new.append(_SubstMany(m).visit(c))
+                    if not ok:
+                        continue
+                    blk[k:k + 1] = new
+                    if table_def is not None:
+                        for n2 in ast.walk(fn):
+                            for f2 in ("body", "orelse", "finalbody"):
+                                b2 = getattr(n2, f2, None)
+                                if isinstance(b2, list) and any(x is table_def for x in b2):
+                                    b2[:] = [x for x in b2 if x is not table_def]
+                    n_done += 1
+                    changed = True
+                    break
+                if changed:
+                    break
+            if changed:
+                break
+        if not changed:
+            break
+    return n_done
+
+
 def inline_new_temps(rel, fn, qual):
     """-> names inlined"""
     ref = load_table().get(rel, {}).get(qual)
@@ -319,6 +404,11 @@ def inline_new_temps(rel, fn, qual):
     cur = bindings(fn)
     if len(cur) <= len(ref_names) and {c[0] for c in cur} <= ref_names:
         return []
+    if unroll_new_table_loops(fn, ref_names):
+        ast.fix_missing_locations(fn)
+        for node in ast.walk(fn):
+            for ch in ast.iter_child_nodes(node):
+                ch._parent = node
     done = propagate_new_aliases(fn, ref_names)
     changed = True
     while changed:
